@@ -223,6 +223,95 @@ def h_refine(ctx, nl, nr, d, k):
         ctx.prove("C13.refine.axes_refined_independently", all(grid.axes[i] is not grid.axes[j] for i in range(d) for j in range(i)), info={"d": d})
 
 
+class RootStub:
+    """scipy.optimize.root_scalar contract: some root of f inside the bracket (f changes sign on it)"""
+
+    class optimize:
+        @staticmethod
+        def root_scalar(f, bracket=None, **kw):
+            ctx = V.get_context()
+            if ctx is None:
+                import scipy.optimize as so
+
+                return so.root_scalar(f, bracket=bracket, **kw)
+            a, b = bracket
+            x = ctx.real("root")
+            ctx.assume(AND(x > a, x < b))
+            ctx.assume(EQ(f(x), 0))
+
+            class _Sol:
+                root = x
+
+            return _Sol
+
+
+shims.install(GS, scipy=RootStub)
+
+
+def replay_pstep(sc):
+    """the real CTMCGridProbabilityStep on a Merton model: after one refinement the neighbours of 0 are +-h and every new state
+    away from the origin splits the mass of its gap in two equal halves"""
+    from rpylib.model.levymodel.mixed.merton import MertonModel, MertonParameters
+
+    model = MertonModel(parameters=MertonParameters(sigma=0.1, intensity=2.0, mu_j=0.1, sigma_j=0.3))
+    grid = GS.CTMCGridProbabilityStep(h=0.1, model=model, minimum_probability_step=0.2)
+    old = np.array(grid.axes[0], dtype=float)
+    grid.refine()
+    ax = np.array(grid.axes[0], dtype=float)
+    piv = int(grid.origin_coordinate.value)
+    nu = model.levy_triplet.nu.integrate
+    bad = []
+    if not (abs(ax[piv]) < 1e-12 and abs(ax[piv + 1] - grid.h) < 1e-9 and abs(ax[piv - 1] + grid.h) < 1e-9):
+        bad.append(f"neighbours of the origin are {ax[piv - 1]!r}, {ax[piv + 1]!r} with h = {grid.h!r}")
+    for j in range(1, len(ax) - 1, 2):
+        if j in (piv - 1, piv + 1):
+            continue
+        lm, rm = nu(ax[j - 1], ax[j]), nu(ax[j], ax[j + 1])
+        if abs(lm - rm) > 1e-6 * (lm + rm):
+            bad.append(f"new state {ax[j]!r} in ({ax[j - 1]!r}, {ax[j + 1]!r}): masses {lm!r} | {rm!r}")
+    return bool(bad), "CTMCGridProbabilityStep(h=0.1, Merton, min step 0.2).refine(): " + "; ".join(bad[:3])
+
+
+def h_refine_pstep(ctx, nl, nr, k):
+    """refinement of a probability-step grid (its own `middle`: +-h/2 next to the origin, the equal-mass point elsewhere, found by a
+    root search modelled by its contract) over an abstract Lévy measure"""
+    axis, h, pivot = sym_axis(ctx, nl, nr)
+    nu = A.AbsMeasure(ctx, "nu", finite_activity=True)
+    grid = GS.CTMCGridProbabilityStep.__new__(GS.CTMCGridProbabilityStep)
+    GS.CTMCGrid.__init__(grid, h=h, origin_coordinate=pivot, axes=[axis])
+    grid.minimum_probability_step = 0.05
+    grid.levy_measure = nu
+    lam = ctx.real("intensity")
+    ctx.assume(lam > 0)
+    grid.intensity_of_jumps = lam
+    # positive mass on every gap (otherwise the equal-mass point is not unique and the grid is degenerate)
+    for j in range(len(axis) - 1):
+        if j not in (pivot - 1, pivot):
+            ctx.assume(SymReal((nu.neg_term if j < pivot else nu.pos_term)(0, axis[j], axis[j + 1])) > 0)
+    rp = (replay_pstep, lambda m: {})
+    info = {"nl": nl, "nr": nr, "k": k}
+    hk = h
+    for step in range(k):
+        old = list(grid.axes[0])
+        grid.refine()
+        hk = hk / 2
+        ax = grid.axes[0]
+        piv = grid.origin_coordinate.value
+        ctx.prove("C13.pstep.refine.size_and_origin", AND(len(ax) == 2 * len(old) - 1, piv == pivot * 2 ** (step + 1)), info=info, replay=rp)
+        if len(ax) != 2 * len(old) - 1:
+            return
+        ctx.prove("C13.pstep.refine.old_states_kept_at_scaled_index", AND(*[EQ(ax[2 * j], old[j]) for j in range(len(old))]), info=info, replay=rp)
+        ctx.prove("C13.pstep.refine.strictly_increasing", AND(*[ax[j] < ax[j + 1] for j in range(len(ax) - 1)]), info=info, replay=rp)
+        ctx.prove("C13.pstep.refine.h_halves_and_origin_neighbours_are_pm_h", AND(EQ(grid.h, hk), EQ(ax[piv], 0), EQ(ax[piv + 1], grid.h), EQ(ax[piv - 1], -grid.h)), info=info, replay=rp)
+        conds = []
+        for j in range(1, len(ax) - 1, 2):
+            if j in (piv - 1, piv + 1):
+                continue
+            term = nu.neg_term if j < piv else nu.pos_term
+            conds.append(EQ(SymReal(term(0, ax[j - 1], ax[j])), SymReal(term(0, ax[j], ax[j + 1]))))
+        ctx.prove("C13.pstep.refine.new_states_split_the_gap_mass_in_half", AND(*conds) if conds else True, info=info, replay=rp)
+
+
 def h_twin(ctx):
     axis, h, pivot = sym_axis(ctx, 2, 2)
     grid = make_grid(h, pivot, [axis])
@@ -245,11 +334,13 @@ def harnesses(tier):
         hs.append(Harness(f"credit.{d}.{sym}", h_credit, {"d": d, "symmetric": sym}, max_paths=6000, batch=20))
     for nl, nr, d, k in ([(2, 2, 1, 1), (1, 2, 1, 2), (2, 1, 2, 1)] if q else [(2, 2, 1, 1), (1, 2, 1, 2), (2, 1, 2, 1), (3, 3, 1, 2), (2, 2, 1, 3), (2, 2, 3, 2)]):
         hs.append(Harness(f"refine.{nl}.{nr}.{d}.{k}", h_refine, {"nl": nl, "nr": nr, "d": d, "k": k}, max_paths=2000))
+    for nl, nr, k in (((2, 2, 1), (1, 2, 2)) if q else ((2, 2, 1), (1, 2, 2), (3, 2, 2), (2, 3, 3))):
+        hs.append(Harness(f"pstep.refine.{nl}.{nr}.{k}", h_refine_pstep, {"nl": nl, "nr": nr, "k": k}, max_paths=2000))
     hs.append(Harness("twin", h_twin, twin="must_fail"))
     return hs
 
 
-EXPECT = ["C13.uniform.strictly_increasing", "C13.uniform.zero_at_origin_index_with_pm_h_neighbours", "C13.fixed_size.strictly_increasing", "C13.geometric.strictly_increasing",
+EXPECT = ["C13.pstep.refine.new_states_split_the_gap_mass_in_half", "C13.pstep.refine.h_halves_and_origin_neighbours_are_pm_h", "C13.uniform.strictly_increasing", "C13.uniform.zero_at_origin_index_with_pm_h_neighbours", "C13.fixed_size.strictly_increasing", "C13.geometric.strictly_increasing",
           "C13.credit.strictly_increasing", "C13.credit.threshold_on_cell_boundary", "C13.refine.old_states_kept_at_scaled_index", "C13.refine.new_states_are_cell_boundaries",
           "C13.refine.h_halves", "C13.refine.truncations_unchanged"]
 
